@@ -158,6 +158,13 @@ fn check_n(ctx: &mut Ctx, n: i128, positions: &[Pos]) {
             ctx.count(if in_i64 { "n-in-i64" } else { "n-outside-i64" });
             let out = decode_oracle(ctx, p.ty, &bytes, p.name, true);
             if let Outcome::Accepted(c, m) = out {
+                // the same value rebuilt in memory (no retained protected bytes) must encode the
+                // integer too
+                if ei == 0 && !model::prot_positions(&m).is_empty() {
+                    let mut rebuilt = m.clone();
+                    model::clear_prot_bytes(&mut rebuilt);
+                    super::common::encode_oracle(ctx, &rebuilt, "decoded, then rebuilt without retained bytes");
+                }
                 // the value encodes back to a CBOR integer of the same value
                 ctx.eval();
                 match capi::to_vec(c) {
